@@ -15,6 +15,9 @@ CHECKS = {
  "C19": dict(cat="model_checking", tech="TLA+ model ObjLife.tla (refcounts, destroy/copy hooks, owned buffers, owned child object, shared resources) exhaustively checked by TLC; every distinct history of its state graph replayed on real libsquashfs objects of all 19 copyable kinds under ASan+LSan with a fresh-object oracle",
    text="TLC explores all programs of up to 5 (quick) / 6 (thorough) create/mutate/query/copy/grab/drop steps over up to 3 objects for each object shape (buffers owned, child object, shared file+compressor) and checks: no call through a NULL hook, no use after free, no double free, the copy's visible state evolves independently, nothing leaks once the client holds no reference; six deviations (copy without object init = the pinned id/fragment table, child without init, shallow buffer, shared not grabbed, refcount copied, child not copied) must each give a counterexample. The edge cover of the state graph yields ~12k distinct histories containing a copy; a sample per kind (all in thorough) plus all deviation witnesses are executed on the real objects (5 compressors x 2 directions, id/fragment table, meta/dir/data/xattr readers, read-only file, xattr writer) under ASan+LSan, and every query is compared with a fresh object that received exactly the mutations the model says are visible.",
    note="Trusts ASan/LSan for memory errors and leaks, and the fresh-object oracle. Allocation-failure paths inside copy hooks are not exercised here (see C13).", ref="4 C19"),
+ "C14": dict(cat="model_checking", tech="TLA+ model Writer.tla of the output protocol (every state is a crash point; invariants CrashSafe / NothingAfterCommit) checked by TLC for every table configuration; the recorded output-call sequence of real gensquashfs/tar2sqfs runs validated by TLC against the same Step operator (TraceWriter.tla); exhaustive kill-before-every-output-call enumeration with all readers",
+   text="TLC checks for all 48 configurations of the writer protocol (fragments, export table, xattrs, 0-3 data writes, dedup truncate) that after every prefix of the output calls a reader either rejects the file or sees the complete image, and that nothing but padding follows the committing superblock; four deviations (plausible provisional superblock, final superblock before tables, incrementally updated superblock, tables after commit) must each give a counterexample. Real runs (8 inputs quick / 22 thorough: all compressors, both packers, -j, -e, duplicates, sparse, xattrs) are recorded under an LD_PRELOAD shim; each output call is classified by offset against the independently decoded final image and the event sequence is validated by TLC with the same invariants evaluated at every crash point. Then every crash point k of every run is enumerated exhaustively: the tool is killed before its k-th output call and rdsquashfs -d/-l, sqfs2tar and the independent decoder are run on the leftover; an accepted leftover must give exactly the outputs of the complete image.",
+   note="A crash is a kill between two output-file system calls (no torn writes, no page cache reordering); the shim counts pwrite/write/ftruncate on the output file (matched through /proc/self/fd).", ref="4 C14"),
 }
 NOT_YET = {}
 def main():
